@@ -88,3 +88,10 @@ check("C05", "exploration", "runtime differential monitor: real edi/csv2/fixedle
       "and without final terminator. One recorded known finding (edi top-level hierarchy starts over).",
       "The reference matcher is the documented semantics written recursively. max=0 not generated.",
       "DESIGN.md section 3 C05")
+
+check("C06", "exploration", "runtime round-trip monitor: harness-encoded logical tables read back through csv/csv2/fixed-length/fixedlength2 and compared cell by cell",
+      "Held on every cell of every generated table (quick 1.4e5, thorough 1e7 cells): exact text per declared column on the raw record tree and through a "
+      "no_trim pass-through schema, for all single-rune delimiter classes, quoting, embedded delimiters/newlines, short/long rows, index gaps, overlapping and "
+      "out-of-line fixed-length columns, multi-line records, buffer-straddling lines, blank lines, and old-csv header verification.",
+      "Go csv / bufio normalisations the docs point to (CRLF->LF in quoted fields, CR before LF) are part of the expectation.",
+      "DESIGN.md section 3 C06")
